@@ -3,6 +3,7 @@ package alias
 import (
 	"context"
 	"encoding/binary"
+	"fmt"
 	"sync"
 	"testing"
 	"testing/synctest"
@@ -120,7 +121,7 @@ type schedEvent struct {
 type schedRun struct {
 	sched *scheduler.Scheduler
 	bn    *schedBN
-	subs  [2][]schedEvent
+	subs  [][]schedEvent
 }
 
 func defKindName(t core.DutyType) string {
@@ -204,10 +205,47 @@ func probeScheduler(t *testing.T) {
 			return "scheduler.dutySubscriber(validator A entry|validator B entry)", "sibling", es[0], es[1:], nil, true
 		},
 	}
+	type layPick struct {
+		n int
+		p pick
+	}
+	var all []layPick
+	for _, p := range picks {
+		all = append(all, layPick{2, p})
+	}
+	for _, lay := range subLayouts {
+		n, pos := lay[0], lay[1]
+		all = append(all, layPick{n, func(r *schedRun, ty core.DutyType) (string, string, Named, []Named, []Reread, bool) {
+			e, ok := find(r, pos, ty)
+			if !ok {
+				return "", "", Named{}, nil, nil, false
+			}
+			var held []Named
+			for i := range r.subs {
+				if o, ok := find(r, i, ty); ok && i != pos && o.duty == e.duty {
+					held = append(held, Named{fmt.Sprintf("duty subscriber %d set", i+1), o.set})
+				}
+			}
+			rr := []Reread{{"GetDutyDefinition", func() (any, error) { return r.sched.GetDutyDefinition(t.Context(), e.duty) }}}
+			if ty == core.DutySyncContribution {
+				// the same stored definition serves every later slot of the epoch
+				next := core.Duty{Slot: e.duty.Slot + 1, Type: ty}
+				rr = append(rr, Reread{"GetDutyDefinition(next slot)", func() (any, error) {
+					set, err := r.sched.GetDutyDefinition(t.Context(), next)
+					return map[string]any{"set": set, "result": errStr(err)}, nil
+				}})
+			}
+
+			return "scheduler.dutySubscriber[" + posName(n, pos) + "]|everybody else", "sibling",
+				Named{"duty subscriber set (" + posName(n, pos) + ")", e.set}, held, rr, true
+		}})
+	}
 	for _, ty := range types {
-		for pi, p := range picks {
+		for pi, lp := range all {
+			p := lp.p
+			rigSubs = lp.n
 			bubble(t, "scheduler "+ty.String(), func(t *testing.T) {
-				r := &schedRun{bn: &schedBN{genesis: time.Now().Add(-time.Second), ret: map[core.DutyType][]any{}}}
+				r := &schedRun{bn: &schedBN{genesis: time.Now().Add(-time.Second), ret: map[core.DutyType][]any{}}, subs: make([][]schedEvent, rigSubs)}
 				s, err := scheduler.New(nil, r.bn, false)
 				if err != nil {
 					skip("scheduler: %v", err)
@@ -215,7 +253,7 @@ func probeScheduler(t *testing.T) {
 				}
 				r.sched = s
 				var mu sync.Mutex
-				for i := 0; i < 2; i++ {
+				for i := 0; i < rigSubs; i++ {
 					s.SubscribeDuties(func(_ context.Context, d core.Duty, set core.DutyDefinitionSet) error {
 						mu.Lock()
 						defer mu.Unlock()
@@ -233,7 +271,7 @@ func probeScheduler(t *testing.T) {
 				mu.Unlock()
 				if ok {
 					observe(path, defKindName(ty), shape, a, held, rr)
-				} else if !(ty == core.DutyProposer && pi == len(picks)-1) { // one proposer per slot: no second entry to compare
+				} else if !(ty == core.DutyProposer && pi == len(picks)-1) { //nolint:gocritic // one proposer per slot: no second entry to compare
 					skip("scheduler %s: probe %d found no triggered duty of this type observed by both subscribers", ty, pi)
 				}
 				s.Stop()
@@ -244,6 +282,7 @@ func probeScheduler(t *testing.T) {
 					skip("scheduler: Run did not return after Stop")
 				}
 			})
+			rigSubs = 2
 		}
 	}
 }
@@ -254,7 +293,7 @@ func probeSchedulerHeadEvent(t *testing.T) {
 	t.Helper()
 	bubble(t, "scheduler head event", func(t *testing.T) {
 		featureset.EnableForT(t, featureset.FetchAttOnBlock)
-		r := &schedRun{bn: &schedBN{genesis: time.Now().Add(-time.Second), ret: map[core.DutyType][]any{}}}
+		r := &schedRun{bn: &schedBN{genesis: time.Now().Add(-time.Second), ret: map[core.DutyType][]any{}}, subs: make([][]schedEvent, 1)}
 		s, err := scheduler.New(nil, r.bn, false)
 		if err != nil {
 			skip("scheduler: %v", err)
